@@ -158,6 +158,11 @@ var c03Entries = []entryPoint{
 		}
 		return fmt.Sprintf("%d %d %d %d %d %d %d", p.Flags, p.SeqID, p.ProtocolID, len(p.IntInfo), len(p.StrInfo), p.HeaderLen, p.PayloadLen), p.HeaderLen, true
 	}},
+	// the frame sniffer that takes bytes of ANY length (it has its own length guard; IsTTHeader, which documents that it
+	// wants the 8-byte flag buffer, is not an arbitrary-bytes entry point)
+	{name: "ttheader.IsStreaming", run: func(b []byte, _ int8) (string, int, bool) {
+		return fmt.Sprint(ttheader.IsStreaming(b)), -1, true
+	}},
 }
 
 var c03EntryByName = func() map[string]*entryPoint {
@@ -254,6 +259,30 @@ func c03CallSpan(c *mc.Ctx, ep *entryPoint, in []byte, t int8, desc string, span
 	}
 }
 
+// sweepEntries runs the named entry points on every string over alpha up to maxLen.
+func sweepEntries(c *mc.Ctx, alpha []byte, maxLen int, label string, names []string) bool {
+	buf := make([]byte, 0, 16)
+	for n := 0; n <= maxLen; n++ {
+		total := int64(1)
+		for i := 0; i < n; i++ {
+			total *= int64(len(alpha))
+		}
+		lo, hi := c.Span(total)
+		for k := lo; k < hi; k++ {
+			if k%2048 == 0 && c.Expired() {
+				c.Incomplete(label + ": deadline")
+				return false
+			}
+			s := gen.NthString(alpha, n, k, buf[:0])
+			for _, nm := range names {
+				c03Call(c, c03EntryByName[nm], s, 0, label)
+			}
+		}
+		c.DistinctN(hi - lo)
+	}
+	return true
+}
+
 func c03Run(c *mc.Ctx) {
 	th := c.Thorough()
 	setAllocCap(64 << 20)
@@ -309,6 +338,11 @@ func c03Run(c *mc.Ctx) {
 	}
 	c.Done(fmt.Sprintf("all strings over the full byte alphabet up to length %d x 21 entry points", fullLen))
 
+	// (1b) the TTHeader entry points on all strings up to length 9 over the bytes of the frame magic and flags
+	if !sweepEntries(c, []byte{0x00, 0x10, 0x01, 0xff}, 9, "frame-magic alphabet strings up to length 9", []string{"ttheader.IsStreaming", "ttheader.DecodeFromBytes"}) {
+		return
+	}
+	c.Done("ttheader.IsStreaming / DecodeFromBytes: all strings up to length 9 over {00,10,01,ff}")
 	// (2) truncations, structural perturbations and splices of valid encodings, per entry point family
 	c03Structured(c, th)
 }
